@@ -117,6 +117,8 @@ pub enum CommitContent {
     Psk,
     /// group-context-extensions commit whose 0xF2EE extension is exactly these bytes
     RawGroupData(Vec<u8>),
+    /// a rename (a proposal the commit covers) together with an update path whose leaf carries another Nostr identity
+    RenameWithIdentity(String),
 }
 
 /// Build a commit directly with the OpenMLS commit builder on `c` (left pending on c) and wrap it.
@@ -186,6 +188,16 @@ pub fn raw_commit(c: &Client, gid: &GroupId, content: &CommitContent, pk_of: &dy
                 let cwk = CredentialWithKey { credential: cred.into(), signature_key: leaf.signature_key().clone() };
                 let params = LeafNodeParameters::builder().with_credential_with_key(cwk).build();
                 b = b.force_self_update(true).leaf_node_parameters(params);
+            }
+            CommitContent::RenameWithIdentity(who) => {
+                let pk = pk_of(who).ok_or(AdvError("unknown".into()))?;
+                let gg = m.load_mls_group(gid).map_err(ae("load"))?.unwrap();
+                let leaf = gg.own_leaf().ok_or(AdvError("no leaf".into()))?;
+                let cred = BasicCredential::new(pk.to_bytes().to_vec());
+                let cwk = CredentialWithKey { credential: cred.into(), signature_key: leaf.signature_key().clone() };
+                let params = LeafNodeParameters::builder().with_credential_with_key(cwk).build();
+                let exts = ext_with(&gg, &|d| d.name = "renamed-and-rebound".into())?;
+                b = b.propose_group_context_extensions(exts).map_err(ae("gce"))?.force_self_update(true).leaf_node_parameters(params);
             }
             CommitContent::PendingByRef => {
                 consume = true;
